@@ -210,7 +210,8 @@ def build(spec):
         from torch.utils.tensorboard import SummaryWriter
         d = tempfile.mkdtemp(prefix="c01sw_")
         _CLEANUP.append(d)
-        return SummaryWriter(log_dir=os.path.join(d, spec[1]))
+        mq, fs, sfx = (spec[2:5] if len(spec) >= 5 else (10, 120, ""))
+        return SummaryWriter(log_dir=os.path.join(d, spec[1]), max_queue=mq, flush_secs=fs, filename_suffix=sfx)
     # ---- torch kinds
     import torch
     if k == "tensor":
@@ -455,6 +456,10 @@ def alpha(x, loaded=False, stats=None) -> str:
         st("rng")
         bg = type(x.bit_generator).__name__
         return "(VRng %s %s)" % (cs(bg), "JNull" if loaded else "(JOpaque %s)" % cz(rng_state_id(x.bit_generator.state)))
+    if type(x).__name__ == "SummaryWriter" and hasattr(x, "add_scalar") and hasattr(x, "add_image"):
+        st("summarywriter")
+        return "(VTbWriter %s %s %s %s)" % (cs(str(x.log_dir)), cz(int(x.max_queue)), cz(int(x.flush_secs)),
+                                            cs(str(x.filename_suffix) if x.filename_suffix else ""))
     if isinstance(x, complex):
         st("other")
         return "(VOther %s %s)" % (clist(cs(t) for t in mro_names(x)), cz(other_id(x)))
